@@ -1092,8 +1092,9 @@ def main(run):
     ]
     return (
         "ALL expressions of the grammar (atoms a b 2 0.5 -1.5 k v arr[0] arr[1] pi; 20 unary, 8 binary operators; commutative twins "
-        "removed): depth<=1 over all atoms + depth 2 over {a,b,0.5} with sibling {a,b} (quick); + depth 2 with two non-atomic "
-        "children and every depth-3 operator triple over {a,b} (thorough); each through call / numpy / numba source / single_arg / "
+        "removed): depth<=1 over all atoms + depth 2 = one more operator around every depth-1 expression over {a,b}, sibling in {a,b} on "
+        "either side (quick); thorough: inner atoms {a,b,0.5}, + depth 2 with two non-atomic children and every depth-3 operator "
+        "triple over {a,b} (reduced route set for these); each through call / numpy / numba source / single_arg / "
         "arrays / broadcasting / differentiate / derivatives at 3 seeded generic + 4 special points; one really compiled function per "
         "shape class (outer x inner operators); plus alias / repl / explicit-symbol variants, tensor expressions, field constructors "
         "on 5 grids, evaluate(), parse_number over all depth<=1 expressions; distinct = expressions (per part) with >= 1 "
